@@ -6,19 +6,21 @@ set_option linter.unusedVariables false
 namespace Exa.Pack
 
 /-- what the four NLRI-carrying places of a message hold -/
-structure SecOK (A4 W4 : Nlri → Prop) (R U : Mp → Prop) (m : Msg) : Prop where
+structure SecOK (attr : Nat) (A4 W4 : Nlri → Prop) (R U : Mp → Prop) (m : Msg) : Prop where
   a4 : ∀ x ∈ m.ann4, A4 x
   w4 : ∀ x ∈ m.wd4, W4 x
   r : ∀ r, m.reach = some r → R r
   u : ∀ u, m.unreach = some u → U u
   /-- the attribute block is there whenever the message announces something -/
   att : m.attrs = true ∨ (sz m.ann4 = 0 ∧ m.reach = none)
+  /-- the message is what `messages` assembles from its parts with the attribute block `attr` (so its length is) -/
+  isMk : m = mkMsg attr m.wd4 m.unreach m.attrs m.reach m.ann4
 
 theorem mkMsg_sec {A4 W4 : Nlri → Prop} {R U : Mp → Prop} (attr : Nat) (w : List Nlri) (u : Option Mp)
     (b : Bool) (r : Option Mp) (a : List Nlri)
     (ha : ∀ x ∈ a, A4 x) (hw : ∀ x ∈ w, W4 x) (hr : ∀ r', r = some r' → R r') (hu : ∀ u', u = some u' → U u')
     (hb : b = true ∨ (sz a = 0 ∧ r = none)) :
-    SecOK A4 W4 R U (mkMsg attr w u b r a) := ⟨ha, hw, hr, hu, hb⟩
+    SecOK attr A4 W4 R U (mkMsg attr w u b r a) := ⟨ha, hw, hr, hu, hb, rfl⟩
 
 theorem attrs_dec (a : List Nlri) : decide (sz a ≠ 0) = true ∨ (sz a = 0 ∧ (none : Option Mp) = none) := by
   by_cases h : sz a = 0
@@ -31,7 +33,7 @@ variable {A4 W4 : Nlri → Prop} {R U : Mp → Prop}
 /-- `A4` may mention the size test of the loop: only NLRIs with `size ≤ ms` get in. -/
 theorem v4AnnLoop_sec (ms attr : Nat) :
     ∀ (xs w a : List Nlri), (∀ x ∈ xs, x.size ≤ ms → A4 x) → (∀ x ∈ a, A4 x) → (∀ x ∈ w, W4 x) →
-      (∀ m ∈ (v4AnnLoop ms attr xs w a).msgs, SecOK A4 W4 R U m) ∧
+      (∀ m ∈ (v4AnnLoop ms attr xs w a).msgs, SecOK attr A4 W4 R U m) ∧
       (∀ x ∈ (v4AnnLoop ms attr xs w a).a, A4 x) ∧ (∀ x ∈ (v4AnnLoop ms attr xs w a).w, W4 x) := by
   intro xs
   induction xs with
@@ -59,7 +61,7 @@ theorem v4AnnLoop_sec (ms attr : Nat) :
 
 theorem v4WdLoop_sec (ms attr : Nat) :
     ∀ (xs w a : List Nlri), (∀ x ∈ xs, x.size ≤ ms → W4 x) → (∀ x ∈ a, A4 x) → (∀ x ∈ w, W4 x) →
-      (∀ m ∈ (v4WdLoop ms attr xs w a).msgs, SecOK A4 W4 R U m) ∧
+      (∀ m ∈ (v4WdLoop ms attr xs w a).msgs, SecOK attr A4 W4 R U m) ∧
       (∀ x ∈ (v4WdLoop ms attr xs w a).a, A4 x) ∧ (∀ x ∈ (v4WdLoop ms attr xs w a).w, W4 x) := by
   intro xs
   induction xs with
@@ -87,7 +89,7 @@ theorem v4WdLoop_sec (ms attr : Nat) :
 
 theorem feedReach_sec (attr : Nat) :
     ∀ (rs : List Mp) (p : Option Mp), (∀ r ∈ rs, R r) → (∀ r, p = some r → R r) →
-      (∀ m ∈ (feedReach attr rs p).1, SecOK A4 W4 R U m) ∧ (∀ r, (feedReach attr rs p).2 = some r → R r) := by
+      (∀ m ∈ (feedReach attr rs p).1, SecOK attr A4 W4 R U m) ∧ (∀ r, (feedReach attr rs p).2 = some r → R r) := by
   intro rs
   induction rs with
   | nil => intro p _ hp; simp [feedReach]; exact hp
@@ -112,7 +114,7 @@ theorem feedReach_sec (attr : Nat) :
 
 theorem feedUnreach_sec (ms attr : Nat) :
     ∀ (us : List Mp) (p u : Option Mp), (∀ r ∈ us, U r) → (∀ r, p = some r → R r) → (∀ r, u = some r → U r) →
-      (∀ m ∈ (feedUnreach ms attr us p u).1, SecOK A4 W4 R U m) ∧
+      (∀ m ∈ (feedUnreach ms attr us p u).1, SecOK attr A4 W4 R U m) ∧
       (∀ r, (feedUnreach ms attr us p u).2.reach = some r → R r) ∧
       (∀ r, (feedUnreach ms attr us p u).2.unreach = some r → U r) := by
   intro us
@@ -135,7 +137,7 @@ theorem feedUnreach_sec (ms attr : Nat) :
 
 theorem famFinal_sec (attr : Nat) (s : MpSt)
     (hp : ∀ r, s.reach = some r → R r) (hu : ∀ r, s.unreach = some r → U r) :
-    ∀ m ∈ famFinal attr s, SecOK A4 W4 R U m := by
+    ∀ m ∈ famFinal attr s, SecOK attr A4 W4 R U m := by
   intro m hm
   unfold famFinal at hm
   split at hm
@@ -146,7 +148,7 @@ theorem famFinal_sec (attr : Nat) (s : MpSt)
 theorem famStep_sec (inclW : Bool) (ms attr fam : Nat) (ra wa : List Nlri)
     (hR : ∀ r ∈ reachGen ms fam (groupsOf ra), R r)
     (hU : inclW = true → ∀ u ∈ unreachGen ms fam wa, U u) :
-    ∀ m ∈ famStep inclW ms attr fam ra wa, SecOK A4 W4 R U m := by
+    ∀ m ∈ famStep inclW ms attr fam ra wa, SecOK attr A4 W4 R U m := by
   have f1 := feedReach_sec (A4 := A4) (W4 := W4) (R := R) (U := U) attr
     (reachGen ms fam (groupsOf ra)) none hR (by intro _ h; cases h)
   intro m hm
@@ -170,7 +172,7 @@ theorem famStep_sec (inclW : Bool) (ms attr fam : Nat) (ra wa : List Nlri)
 theorem famLoop_sec (inclW : Bool) (ms attr : Nat) (ma mw : List Nlri)
     (hR : ∀ f, ∀ r ∈ reachGen ms f (groupsOf (ma.filter (fun x => x.fam = f))), R r)
     (hU : inclW = true → ∀ f, ∀ u ∈ unreachGen ms f (mw.filter (fun x => x.fam = f)), U u) :
-    ∀ (fs : List Nat), ∀ m ∈ famLoop inclW ms attr ma mw fs, SecOK A4 W4 R U m := by
+    ∀ (fs : List Nat), ∀ m ∈ famLoop inclW ms attr ma mw fs, SecOK attr A4 W4 R U m := by
   intro fs
   induction fs with
   | nil => intro m hm; simp [famLoop] at hm
@@ -190,11 +192,11 @@ end sec
     is a requested one with exactly that next hop that fits alone in `maxi`. -/
 theorem reachGen_sec (maxi fam : Nat) (ra : List Nlri) :
     ∀ r ∈ reachGen maxi fam (groupsOf ra),
-      r.fam = fam ∧ r.hdr = 5 + r.nhLen ∧
+      r.fam = fam ∧ r.hdr = 5 + r.nhLen ∧ 0 < sz r.items ∧
       ∀ x ∈ r.items, x ∈ ra ∧ x.nh = r.nh ∧ x.nhLen = r.nhLen ∧ attrLen (5 + x.nhLen + x.size) ≤ maxi := by
   have key : ∀ gs : List ((Nat × Nat) × List Nlri), (∀ g ∈ gs, ∀ x ∈ g.2, x ∈ ra ∧ nhKey x = g.1) →
       ∀ r ∈ reachGen maxi fam gs,
-        r.fam = fam ∧ r.hdr = 5 + r.nhLen ∧
+        r.fam = fam ∧ r.hdr = 5 + r.nhLen ∧ 0 < sz r.items ∧
         ∀ x ∈ r.items, x ∈ ra ∧ x.nh = r.nh ∧ x.nhLen = r.nhLen ∧ attrLen (5 + x.nhLen + x.size) ≤ maxi := by
     intro gs
     induction gs with
@@ -207,7 +209,7 @@ theorem reachGen_sec (maxi fam : Nat) (ra : List Nlri) :
       unfold reachGen at hr
       simp only [List.mem_append, List.mem_map] at hr
       rcases hr with ⟨it, hit, rfl⟩ | hr
-      · refine ⟨rfl, rfl, ?_⟩
+      · refine ⟨rfl, rfl, splitGroup_pos maxi (5 + k.2) xs [] it hit, ?_⟩
         intro x hx
         rcases splitGroup_sub maxi (5 + k.2) xs [] it hit x hx with h | ⟨h, hfit⟩
         · simp at h
@@ -220,12 +222,12 @@ theorem reachGen_sec (maxi fam : Nat) (ra : List Nlri) :
 
 theorem unreachGen_sec (maxi fam : Nat) (wa : List Nlri) :
     ∀ u ∈ unreachGen maxi fam wa,
-      u.fam = fam ∧ u.hdr = 3 ∧ ∀ x ∈ u.items, x ∈ wa ∧ attrLen (3 + x.size) ≤ maxi := by
+      u.fam = fam ∧ u.hdr = 3 ∧ 0 < sz u.items ∧ ∀ x ∈ u.items, x ∈ wa ∧ attrLen (3 + x.size) ≤ maxi := by
   intro u hu
   unfold unreachGen at hu
   simp only [List.mem_map] at hu
   obtain ⟨it, hit, rfl⟩ := hu
-  refine ⟨rfl, rfl, ?_⟩
+  refine ⟨rfl, rfl, splitGroup_pos maxi 3 wa [] it hit, ?_⟩
   intro x hx
   rcases splitGroup_sub maxi 3 wa [] it hit x hx with h | h
   · simp at h
